@@ -545,6 +545,49 @@ theorem c06_real_voters_permit_safe (s : Strategy) (minVoters budget n : Nat) (h
     · exact ⟨_, hmem, hk, hc, he⟩
     · exact ⟨_, hmem, hk, he⟩
 
+/-- … also when the budget runs out on the way: a safe proposal put to `n` real voters of which at least one - and at
+    least `min_voters` - can pay for an answer is PERMIT under every strategy but the count strategy with its default
+    threshold; the voters left without ATP answer FAILURE, an abstention that neither supports nor hinders (for the count
+    strategy they enlarge the colony: 2 funded of 4 is no majority of the colony, example below). -/
+theorem c06_real_voters_permit_safe_partially_funded (s : Strategy) (hs : s ≠ .threshold) (minVoters budget n : Nat)
+    (hn : 1 ≤ n) (hb : 10 ≤ budget) (hm : minVoters ≤ min n (budget / 10)) :
+    (runVote ⟨s, none, minVoters⟩ (bioVoters .safe budget n)).decision = .permit := by
+  have hmem := bioVoters_safe_members budget n
+  have hnP := nP_bioVoters_safe budget n
+  have hpos : 0 < nP (collect (bioVoters .safe budget n)) := by rw [hnP]; omega
+  have h01 : (0 : Rat) ≤ 1 := by decide +kernel
+  refine (c06_unanimous_permit_with_idle_voters ⟨s, none, minVoters⟩ _ hs ?_ hpos (by rw [hnP]; exact hm) ?_ ?_ ?_).2
+  · intro v hv
+    rcases hmem v hv with rfl | rfl <;> decide
+  · intro v hv
+    rcases hmem v hv with rfl | rfl <;> exact ⟨h01, h01⟩
+  · have := default_attainable s (bioVoters .safe budget n).length
+    unfold Attainable at this ⊢
+    exact this
+  · obtain ⟨x, hx, hk⟩ := (nP_pos_iff _).mp hpos
+    unfold collect at hx
+    obtain ⟨v, hv, rfl⟩ := List.mem_map.mp hx
+    have hvp : v = bioVoter .permit := by
+      rcases hmem v hv with rfl | rfl
+      · rfl
+      · exact absurd hk (by decide)
+    subst hvp
+    have hmem' : toVote (bioVoter .permit) ∈ collect (bioVoters .safe budget n) := by
+      unfold collect; exact List.mem_map.mpr ⟨_, hv, rfl⟩
+    have he : 0 < (toVote (bioVoter .permit)).eff := by decide +kernel
+    have hc : (toVote (bioVoter .permit)).conf ≥ confidenceMin := by
+      show confidenceMin ≤ 1; exact const_more.2.2
+    unfold Supported
+    cases s <;> simp only []
+    · exact ⟨_, hmem', hk, he⟩
+    · exact ⟨_, hmem', hk, hc, he⟩
+    · exact ⟨_, hmem', hk, he⟩
+
+/-- 25 ATP among four voters: two permits, two FAILUREs - PERMIT under SUPERMAJORITY with `min_voters = 2` (the theorem
+    above), but not under the default count strategy (2 of 4) -/
+example : (runVote ⟨.supermajority, none, 2⟩ (bioVoters .safe 25 4)).decision = .permit ∧
+    (runVote ⟨.threshold, none, 1⟩ (bioVoters .safe 25 4)).decision = .block := by decide +kernel
+
 /-- both theorems apply to concrete colonies: three funded voters permit a safe proposal; with 25 ATP the third
     voter fails (abstains) and the two permits still carry the majority; a dangerous proposal is blocked -/
 example : (runVote ⟨.supermajority, none, 2⟩ (bioVoters .safe 30 3)).decision = .permit ∧
